@@ -1,6 +1,7 @@
 (* C11 — automatic updates never widen what the project trusts. *)
 Require Import Base Extracted Criteria Search AuditGraph DepGraph Resolve Update Commands Witness UserCommands.
-Require Import CriteriaProofs ResolveProofs UpdateProofs NeverWidens UserCommandsProofs.
+Require Import CriteriaProofs ResolveProofs SuggestProofs UpdateProofs NeverWidens UserCommandsProofs.
+Require Import CertifyCollapse CollapseProofs.
 Local Open Scope N_scope.
 
 (* Every per-crate update that get_store_updates returns is [update_pkg] applied to
@@ -162,6 +163,13 @@ Proof.
     repeat match goal with b : bool |- _ => destruct b end; cbn; try discriminate; reflexivity.
 Qed.
 
+(* `certify` folding the new delta with an adjacent prior audit (CertifyCollapse.v): every chain of records in the store
+   holding the folded audit is a chain in the store holding the delta as it was asked for — folding widens nothing *)
+Theorem C11_certify_fold_certifies_nothing_new : forall t ps imp_of new prior m,
+  In prior (ps_local ps) -> try_collapse imp_of new prior = Some m ->
+  forall c x y, fpath t (add_local_audit ps m) c x y -> fpath t (add_local_audit ps new) c x y.
+Proof. exact fold_certifies_nothing_new. Qed.
+
 Print Assumptions C11_updates_shape.
 Print Assumptions C11_local_audits_only_removed.
 Print Assumptions C11_imported_audits_from_live.
@@ -178,3 +186,4 @@ Print Assumptions C11_regenerate_imports_never_widens.
 Print Assumptions C11_cleanups_never_widen.
 Print Assumptions C11_trust_changes_one_entry.
 Print Assumptions C11_trusted_criteria_mean_the_request.
+Print Assumptions C11_certify_fold_certifies_nothing_new.
